@@ -57,8 +57,18 @@ def rarp():
             "sample_size_omega": Sx, "selected_sample_size_omega": selx}
 
 
-BASE_PRE = [start >= 0, every >= 1, J >= 0, it >= 0, selt >= 1, selx >= 1, St >= selt, Sx >= selx, n0 >= 1, nt0 >= 1,
-            n0 + J * selx <= n, nt0 + J * selt <= nt, c >= 0]
+class _Pre(list):
+    """BASE_PRE + ... ; `.of(kind)`: for a non-stationary generator the candidates are the S_t x S_x pairs, so a selected
+    size need only not exceed the number of pairs (it may exceed its own axis' candidate count)"""
+    def of(self, kind):
+        if kind != "nonstatio":
+            return list(self)
+        drop = {str(St >= selt), str(Sx >= selx)}
+        return [p_ for p_ in self if str(p_) not in drop] + [selt <= St * Sx, selx <= St * Sx, St >= 1, Sx >= 1]
+
+
+BASE_PRE = _Pre([start >= 0, every >= 1, J >= 0, it >= 0, selt >= 1, selx >= 1, St >= selt, Sx >= selx, n0 >= 1, nt0 >= 1,
+            n0 + J * selx <= n, nt0 + J * selt <= nt, c >= 0])
 
 
 def gen(kind, dim=2):
@@ -162,7 +172,7 @@ def ob_init_rar(kind):
         outs = ex.call_function("init_rar", [data])
         (o,) = outs
         d2, f_true, f_false = o.value
-        pre = BASE_PRE + list(o.pc)
+        pre = BASE_PRE.of(kind) + list(o.pc)
         goals = [("counter_unchanged", zint(d2.fields["rar_iter_from_last_sampling"]) == c),
                  ("steps_unchanged", zint(d2.fields["rar_iter_nb"]) == J),
                  ("closures_returned", z3.BoolVal(f_true is not None and f_false is not None))]
@@ -187,7 +197,7 @@ def ob_proceed(kind, zero=None):
         if kind in ("statio", "nonstatio"):
             cap.append(selx <= n - (n0 + J * selx))
         spec = z3.And(it >= start, c == every - 1, *cap)
-        pre = BASE_PRE + list(o.pc)
+        pre = BASE_PRE.of(kind) + list(o.pc)
         if zero is not None:
             z_ = selt if zero == "t" else selx
             pre = [p_ for p_ in pre if not (z3.is_ge(p_) and p_.arg(0).eq(z_))] + [z_ == 0]
@@ -215,7 +225,7 @@ def ob_step_false(kind):
         _, f_false = closures(ex, kind)
         (res,) = ex.apply(f_false, [(loss_of(kind), Rec("Params", {}), data, it)], {}, [])
         d2, pc = res
-        pre = BASE_PRE + list(pc)
+        pre = BASE_PRE.of(kind) + list(pc)
         goals = [("counter", zint(d2.fields["rar_iter_from_last_sampling"]) == c + z3.If(it > start, 1, 0))]
         for fld in data.fields:
             if fld != "rar_iter_from_last_sampling":
@@ -273,7 +283,7 @@ def ob_step_true(kind, clause, cols=None):
             cap.append(mt + selt <= nt)
         if kind in ("statio", "nonstatio"):
             cap.append(mx + selx <= n)
-        pre = BASE_PRE + cap + list(pc) + [k_ >= 0, q_ >= 0]
+        pre = BASE_PRE.of(kind) + cap + list(pc) + [k_ >= 0, q_ >= 0]
         goals, canary = [], None
         T, X = kind in ("ODE", "nonstatio"), kind in ("statio", "nonstatio")
         if clause == "counters":
@@ -388,8 +398,16 @@ def ob_trigger(kind):
         # marker branches: the true branch tags the step count with +100, the false branch with -100
         br_t = lambda ex_, a, k, pc: a[0][2].replace(rar_iter_nb=J + 100)
         br_f = lambda ex_, a, k, pc: a[0][2].replace(rar_iter_nb=J - 100)
-        (o,) = ex.call_function("trigger_rar", [it, loss_of(kind), Rec("Params", {}), data, br_t, br_f])
-        _, _, d2 = o.value
+        loss_in, params_in = loss_of(kind), Rec("Params", {"nn_params": z3.Real("theta"), "eq_params": {"a": z3.Real("a_param")}})
+        (o,) = ex.call_function("trigger_rar", [it, loss_in, params_in, data, br_t, br_f])
+        loss_out, params_out, d2 = o.value
+        if loss_out is not loss_in or params_out is not params_in:
+            # frame clause: refinement changes the generator only; the loss and the parameters are handed back as they came
+            return dict(status="violated", failure="frame", backend="pyvc",
+                        detail="trigger_rar does not return the loss / the parameters it was given (a refinement step only changes the generator)",
+                        replay=dict(native_disagrees=bool(_safe_native(native_trigger_returns_params)),
+                                    native=_safe_native(native_trigger_returns_params) or "not reproduced natively",
+                                    expected="the same loss and parameters"))
         cap = []
         if kind in ("ODE", "nonstatio"):
             cap.append(selt <= nt - (nt0 + J * selt))
@@ -397,7 +415,7 @@ def ob_trigger(kind):
             cap.append(selx <= n - (n0 + J * selx))
         fires = z3.And(it >= start, c == every - 1, *cap)
         goal = zint(d2.fields["rar_iter_nb"]) == z3.If(fires, J + 100, J - 100)
-        return result(name, [("dispatch", goal)], BASE_PRE + list(o.pc), ex, t0, extra_axioms=counting_lemma(ex, kind),
+        return result(name, [("dispatch", goal)], BASE_PRE.of(kind) + list(o.pc), ex, t0, extra_axioms=counting_lemma(ex, kind),
                       canary=zint(d2.fields["rar_iter_nb"]) == z3.If(fires, J - 100, J + 100))
     return FnObligation(name, run, [RAR + "trigger_rar", RAR + "_proceed_to_rar"])
 
@@ -625,6 +643,37 @@ def _native_rar_resume():
     return None
 
 
+def native_trigger_returns_params():
+    """trigger_rar hands the parameters back unchanged, NaN entries included"""
+    import numpy as np, jax, warnings
+    import jax.numpy as jnp
+    import equinox as eqx
+    from jinns.solver._rar import init_rar, trigger_rar
+    from jinns.data._DataGenerators import DataGeneratorODE
+    from jinns.loss import LossODE, ODE
+    from jinns.parameters import Params
+
+    class Dyn(ODE):
+        def equation(self, t, u, params):
+            return jnp.sin(7.0 * t) * jnp.ones((1,))
+
+    class U(eqx.Module):
+        def __call__(self, t, params):
+            return jnp.zeros((1,))
+    with warnings.catch_warnings():
+        warnings.simplefilter("ignore")
+        loss = LossODE(u=U(), dynamic_loss=Dyn(), params=Params(nn_params=None, eq_params={}))
+    rp = {"start_iter": 0, "update_every": 1, "sample_size_times": 6, "selected_sample_size_times": 2}
+    g = DataGeneratorODE(jax.random.PRNGKey(0), 20, 0.0, 1.0, 2, "uniform", rp, 4)
+    g, ft, ff = init_rar(g)
+    p_in = Params(nn_params=None, eq_params={"a": jnp.array([1.5, jnp.nan, -jnp.inf])})
+    _, p_out, _ = trigger_rar(0, loss, p_in, g, ft, ff)
+    a_in, a_out = np.asarray(p_in.eq_params["a"]), np.asarray(p_out.eq_params["a"])
+    if not np.array_equal(a_in, a_out, equal_nan=True):
+        return [f"trigger_rar returns parameters {a_out.tolist()} for the parameters {a_in.tolist()} it was given"]
+    return None
+
+
 def native_rar_monitor(vals):
     try:
         m = _native_rar_ode(vals)
@@ -805,7 +854,7 @@ def ob_step_true_system(kind):
                         replay=dict(native_disagrees=bool(nat), native=nat or "not replayed natively",
                                     solver_output=f"symbolic execution reached an unbound local: {e.msg}", expected="a refinement step"))
         T, X = kind in ("ODE", "nonstatio"), kind in ("statio", "nonstatio")
-        pre = BASE_PRE + list(pc) + [k_ >= 0] + ([mt + selt <= nt] if T else []) + ([mx + selx <= n] if X else [])
+        pre = BASE_PRE.of(kind) + list(pc) + [k_ >= 0] + ([mt + selt <= nt] if T else []) + ([mx + selx <= n] if X else [])
         goals = [("steps_incremented", zint(d2.fields["rar_iter_nb"]) == J + 1)]
         # ranking: the squared residual of a candidate for a system is the sum over the equations of the squared residuals
         res = getattr(ex, "residuals", [])
@@ -1000,6 +1049,13 @@ def c17_obligations(tier):
         o = ob_init_rar(kind)
         o.name = o.name.replace("C16/", "C17/requires.write_offset_state_kept_by/")
         obs.append(o)
+    # "of the current network": solve hands the refinement step the parameters it has just updated (the step contract of
+    # solve with refinement replaced by its contract, with and without a validation module)
+    from contracts import c07, c19
+    for i in range(3):
+        for o in (c07.step(c07.rar_config(), 3, i), c19.val_step(c07.rar_config(), 3, i, 2)):
+            o.name = o.name.replace("C07/", "C17/solve/").replace("C19/", "C17/solve/")
+            obs.append(o)
     # the reshuffle of a RAR store is drawn with the store's probability vector (C09 step contract, restated)
     from contracts import c09
     for which in ("DataGeneratorODE.temporal_batch", "CubicMeshPDENonStatio.temporal_batch", "CubicMeshPDEStatio.inside_batch[dim=1]"):
